@@ -117,7 +117,22 @@ def run(pid, tier, seed=0, jobs=None, only=None, verbose=False):
     else:
         outs = [_work(t) for t in tasks]
     lemma_results = prove_lemmas(pid, timeout_ms)
-    return summarise(pid, tier, seed, outs, lemma_results, assumed, time.time() - t0, verbose)
+    res = summarise(pid, tier, seed, outs, lemma_results, assumed, time.time() - t0, verbose)
+    if pid == 'C15':
+        from pyvc.audit_c15 import run_audit
+        sites, inferred = run_audit(_REPO)
+        res['audit'] = dict(sites=sites, inferred=inferred)
+        for s_ in sites:
+            name = f'audit/{s_["function"].split(":")[1]}/{s_["kind"]}:{s_["expr"]}'
+            st = {'ok': 'proved', 'violation': 'refuted', 'undecided': 'unknown'}[s_['verdict']]
+            e = dict(name=name, kind='audit', clause=s_['rule'], instances=1, status=st, backends={'ast-audit'},
+                     fn=s_['function'], model=f'{s_["function"]} line {s_["line"]}: {s_["kind"]} over {s_["expr"]}: {s_["rule"]}',
+                     max_size=0)
+            res['by_name'][name] = e
+            {'proved': res['proved'], 'refuted': res['refuted'], 'unknown': res['unknown']}[st].append(e)
+        res['n_ob'] = len(res['by_name'])
+        res['wall'] = time.time() - t0
+    return res
 
 
 def summarise(pid, tier, seed, outs, lemma_results, assumed, wall, verbose):
